@@ -38,8 +38,11 @@ class Facts:
             except OSError:
                 pass
         self.extern_panics = {}
+        self.extern_debug = {}
         for d in raw:
             crate = d["crate"]
+            for e in d.get("extern_debug", []) or []:
+                self.extern_debug[e["adt"]] = e
             if d.get("extern_panics"):
                 self.extern_panics[crate if d["kind"] == "Rlib" else crate + "[bin]"] = d["extern_panics"]
             tag = crate if d["kind"] == "Rlib" else crate + "[bin]"
